@@ -101,3 +101,227 @@ def to_mval(j):
     if t == "cls":
         return "(MOpaque %s)" % gN(j["v"])
     raise ValueError(t)
+
+
+# ---------------------------------------------------------------------------------------------
+# full value domain (Values.PyVal.pyval)
+
+class Pt(object):
+    """Plain object used as a value (class path lib.pyvals.Pt)."""
+    def __init__(self, **kw):
+        self.__dict__.update(kw)
+
+    def __eq__(self, o):
+        return type(o) is type(self) and self.__dict__ == o.__dict__
+
+    def __ne__(self, o):
+        return not self == o
+
+    __hash__ = None
+
+    def __repr__(self):
+        return "Pt(%r)" % (self.__dict__,)
+
+
+class Qt(Pt):
+    pass
+
+
+class Unser(object):
+    """An object whose serialization raises."""
+    def __init__(self, tag=0):
+        self.tag = tag
+
+    def __getstate__(self):
+        raise ValueError("cannot serialize Unser(%d)" % self.tag)
+
+    def __eq__(self, o):
+        return type(o) is Unser and o.tag == self.tag
+
+    __hash__ = None
+
+
+CLASSES = {"lib.pyvals.Pt": Pt, "lib.pyvals.Qt": Qt}
+_py_to_py_full = to_py
+
+
+def to_py(j):  # noqa: F811  (extends the matcher-domain version above)
+    t = j["t"]
+    if t == "obj":
+        o = CLASSES[j["cls"]]()
+        for k, v in j["v"]:
+            setattr(o, k, to_py(v))
+        return o
+    if t == "unser":
+        return Unser(j["v"])
+    if t == "clsref":
+        return CLASSES[j["v"]]
+    if t == "float" and "r" in j:
+        return float(j["r"])
+    if t == "list":
+        return [to_py(x) for x in j["v"]]
+    if t == "tuple":
+        return tuple(to_py(x) for x in j["v"])
+    if t == "set":
+        return set(to_py(x) for x in j["v"])
+    if t == "dict":
+        return {k: to_py(v) for k, v in j["v"]}
+    return _py_to_py_full(j)
+
+
+def from_py(v):
+    """Python value -> tagged JSON (sets in their actual iteration order)."""
+    if v is None:
+        return none()
+    if isinstance(v, bool):
+        return b(v)
+    if isinstance(v, int):
+        return i(v)
+    if isinstance(v, float):
+        return {"t": "float", "r": repr(v)}
+    if isinstance(v, str):
+        return s(v)
+    if isinstance(v, bytes):
+        return {"t": "bytes", "v": list(v)}
+    if isinstance(v, list):
+        return lst([from_py(x) for x in v])
+    if isinstance(v, tuple):
+        return tup([from_py(x) for x in v])
+    if isinstance(v, (set, frozenset)):
+        return {"t": "set", "v": [from_py(x) for x in v]}
+    if isinstance(v, dict):
+        if not all(isinstance(k, str) for k in v):
+            return {"t": "other", "v": repr(v)[:80]}
+        return dct([(k, from_py(x)) for k, x in v.items()])
+    if isinstance(v, Unser):
+        return {"t": "unser", "v": v.tag}
+    if isinstance(v, Pt):
+        return {"t": "obj", "cls": "lib.pyvals." + type(v).__name__, "v": [[k, from_py(x)] for k, x in v.__dict__.items()]}
+    if isinstance(v, type):
+        for k, c in CLASSES.items():
+            if c is v:
+                return {"t": "clsref", "v": k}
+        return {"t": "other", "v": repr(v)[:80]}
+    return {"t": "other", "v": repr(v)[:80]}
+
+
+def float_repr(j):
+    return j["r"] if "r" in j else repr(j["n"] / j["d"])
+
+
+def to_pyval(j):
+    """Gallina term of type Values.PyVal.pyval."""
+    t = j["t"]
+    if t == "none":
+        return "VNone"
+    if t == "bool":
+        return "(VBool %s)" % gbool(j["v"])
+    if t == "int":
+        return "(VInt %s)" % gZ(j["v"])
+    if t == "float":
+        return "(VFloat %s)" % gstr(float_repr(j))
+    if t == "str":
+        return "(VStr %s)" % gstr(j["v"])
+    if t == "bytes":
+        return "(VBytes %s)" % glist([gN(x) for x in j["v"]])
+    if t == "list":
+        return "(VList %s)" % glist([to_pyval(x) for x in j["v"]])
+    if t == "tuple":
+        return "(VTuple %s)" % glist([to_pyval(x) for x in j["v"]])
+    if t == "set":
+        return "(VSet %s)" % glist([to_pyval(x) for x in j["v"]])
+    if t == "dict":
+        return "(VDict %s)" % glist([gpair(gstr(k), to_pyval(v)) for k, v in j["v"]])
+    if t == "obj":
+        return "(VObj %s %s)" % (gstr(j["cls"]), glist([gpair(gstr(k), to_pyval(v)) for k, v in j["v"]]))
+    if t == "clsref":
+        return "(VClass %s)" % gstr(j["v"])
+    if t == "unser":
+        return "(VUnser %s)" % gN(j["v"])
+    raise ValueError(t)
+
+
+def canon_json(j):
+    """Canonical (type-aware, dict-order-insensitive, set-order-insensitive) form for harness-side comparisons."""
+    import json as _json
+    t = j["t"]
+    if t in ("list", "tuple"):
+        return {"t": t, "v": [canon_json(x) for x in j["v"]]}
+    if t == "set":
+        return {"t": t, "v": sorted((canon_json(x) for x in j["v"]), key=lambda x: _json.dumps(x, sort_keys=True))}
+    if t == "dict":
+        return {"t": t, "v": sorted(([k, canon_json(v)] for k, v in j["v"]), key=lambda kv: kv[0])}
+    if t == "obj":
+        return {"t": t, "cls": j["cls"], "v": sorted(([k, canon_json(v)] for k, v in j["v"]), key=lambda kv: kv[0])}
+    if t == "float":
+        return {"t": t, "r": float_repr(j)}
+    return j
+
+
+def simple_bytes_ok(bs):
+    """bytes for which Codec.qp_simple is exact (see Codec.v)."""
+    enc = 0
+    for c in bs:
+        if c in (9, 10, 13, 32, 46):
+            return False
+        enc += 1 if (33 <= c <= 126 and c != 61) else 3
+    return enc <= 70
+
+
+KEY_TEXTS = ["a", "b", "k", "x y", "q\"uote", "back\\slash", "é", "日本", "\U0001F600", "a/b", "a.b", "a=b", "a, b",
+             "{", "}", "[", "]", ":", "", "py/x", "Py/tuple", "new\nline", "tab\t", "\x01", "\x7f", "args=", " args=",
+             ", kwargs=", "#", " #1", "null", "0"]
+STR_TEXTS = KEY_TEXTS + ["hello", "Op", "value", "a*", "ZZ", "z" * 30]
+FLOATS = ["1.5", "0.1", "-2.25", "1e+22", "1e-07", "3.0", "123456789.12345679", "-0.0"]
+
+
+def rand_pyval(rng, depth, sets=False, objs=True, unser=False, floats=True):
+    k = rng.randrange(16 if depth > 0 else 9)
+    if k == 0:
+        return none()
+    if k == 1:
+        return b(rng.random() < 0.5)
+    if k in (2, 3):
+        return i(rng.choice([0, 1, -1, 2, 7, 10, 255, -2**31, 2**63, 10**25, rng.randrange(-1000, 1000)]))
+    if k == 4:
+        return {"t": "float", "r": rng.choice(FLOATS)} if floats else i(3)
+    if k in (5, 6):
+        return s(rng.choice(STR_TEXTS))
+    if k == 7:
+        n = rng.randrange(0, 8)
+        bs = [rng.choice([0, 1, 33, 47, 48, 61, 65, 97, 126, 127, 128, 200, 255]) for _ in range(n)]
+        return {"t": "bytes", "v": bs}
+    if k == 8:
+        if unser and rng.random() < 0.3:
+            return {"t": "unser", "v": rng.randrange(3)}
+        return {"t": "clsref", "v": rng.choice(list(CLASSES))}
+    kw = dict(sets=sets, objs=objs, unser=unser, floats=floats)
+    if k in (9, 10):
+        return lst([rand_pyval(rng, depth - 1, **kw) for _ in range(rng.randrange(0, 4))])
+    if k == 11:
+        return tup([rand_pyval(rng, depth - 1, **kw) for _ in range(rng.randrange(0, 4))])
+    if k in (12, 13):
+        keys = rng.sample(KEY_TEXTS, rng.randrange(0, 4))
+        return dct([(kk, rand_pyval(rng, depth - 1, **kw)) for kk in keys])
+    if k == 14 and objs:
+        keys = rng.sample(["x", "y", "name", "é", "_p"], rng.randrange(1, 4))
+        return {"t": "obj", "cls": rng.choice(list(CLASSES)), "v": [[kk, rand_pyval(rng, depth - 1, **kw)] for kk in keys]}
+    if k == 15 and sets:
+        n = rng.randrange(0, 4)
+        elems = rng.sample(["x", "y", "zz", "abc", "q", "w"], n)
+        return {"t": "set", "v": [s(e) for e in elems]}
+    return i(rng.randrange(100))
+
+
+def shuffle_dicts(rng, j):
+    """A structurally equal value with every dict's / object's insertion order shuffled."""
+    t = j["t"]
+    if t in ("list", "tuple", "set"):
+        return {"t": t, "v": [shuffle_dicts(rng, x) for x in j["v"]]}
+    if t in ("dict", "obj"):
+        items = [[k, shuffle_dicts(rng, v)] for k, v in j["v"]]
+        rng.shuffle(items)
+        out = dict(j)
+        out["v"] = items
+        return out
+    return j
